@@ -58,6 +58,12 @@ def build_dataset():
     mx["b"] = BaseType("b")
     mx.data = IterData([(1, 1), (2, 2.5), (3, 3), (4, 4.25)], mx)
     ds["mx"] = mx
+    # both zeros (equal as numbers, printed differently), as data and as attributes, next to an array with more distinct values
+    # than any small table of formatted numbers would hold
+    ds["z0"] = BaseType("z0", np.array([0.0, 1.5]), offset=0.0)
+    ds["z1"] = BaseType("z1", np.array([-0.0, 2.5]), offset=-0.0)
+    ds["zi"] = BaseType("zi", np.array([0, 3], dtype="i4"), flag=0)
+    ds["big"] = BaseType("big", np.arange(300) * 1.5 + 0.25)
     return ds
 
 
@@ -99,6 +105,7 @@ REQUESTS = [
     "/d.dods?bounds(0,25,0,5,0,20,0,9)", "/d.ascii?loc.lon&bounds(0,25,0,5,0,20,0,9)", "/d.dods?loc.t,q.a&bounds(15,35,0,5,0,30,0,9)",
     "/d.dods?loc&bounds(0,25,0,5,0,20,0,9)&loc.t>1",
     "/d.dods?mx", "/d.dods?mx&mx.a>1", "/d.dds?mx&mx.a>1", "/d.dods?mx.b&mx.a>2", "/d.ascii?mx&mx.a>1", "/d.dds?mx",
+    "/d.ascii?z0", "/d.ascii?z1", "/d.ascii?zi", "/d.das?z1", "/d.ascii?big", "/d.dods?z1",
     "/d.dods?nope", "/d.dods?x[5:9]", "/d.dods?q&q.zz>1", "/d.xyz", "/d", "/d.dods?x[0:1", "/d.dods?mean(nope,0)", "/d.dods?q&q.a>>1",
 ]
 
@@ -215,6 +222,32 @@ def main():
     baseline = Baseline()
     for u in REQUESTS:
         baseline[u]
+    # the same answers taken in processes of their own (one per request): what a fresh application answers must not depend on
+    # what this process has formatted, parsed or cached before
+    import json as _json
+    import os as _os
+    import subprocess as _sp
+    from concurrent.futures import ThreadPoolExecutor as _TPE
+
+    def isolated(u):
+        env = dict(_os.environ, PYTHONPATH=_os.pathsep.join(sys.path), PYTHONHASHSEED="0")
+        out = _sp.run([sys.executable, "-W", "ignore", _os.path.abspath(__file__), "--fetch", u], capture_output=True, env=env, timeout=300)
+        try:
+            return _json.loads(out.stdout.decode().strip().splitlines()[-1])
+        except Exception:
+            return ["subprocess-failed", out.stderr.decode()[-300:]]
+    iso_reqs = list(REQUESTS) if T != "quick" else [u for u in REQUESTS if "ascii" in u or "das" in u or u.endswith((".dods", ".dds", ".html"))]
+    with _TPE(max_workers=12) as ex:
+        iso = dict(zip(iso_reqs, ex.map(isolated, iso_reqs)))
+    for u in iso_reqs:
+        r.count(("isolated-process", u))
+        mine = baseline[u]
+        mine_j = [str(mine[0]), repr(mine[1]), mine[2].hex() if isinstance(mine[2], bytes) else str(mine[2])]
+        if iso[u] != mine_j:
+            direct.append({"law": "the answer of a fresh application does not depend on what its process has served before (compared "
+                                  "with the answer given in a process of its own)", "request": u, "status_here": str(mine[0]),
+                           "isolated": str(iso[u])[:300], "here": str(mine_j)[:300]})
+            break
     stats = {"histories": 0, "requests_in_histories": 0, "schedules": 0, "switches": 0, "single_preemption": 0, "double_preemption": 0,
              "random_line_schedules": 0, "baseline_outcomes": {}}
     for u, b in baseline.items():
@@ -238,6 +271,9 @@ def main():
                 hist.append(u)
             else:
                 hist.append(rng.choice(REQUESTS))
+        if h == 0:
+            # scripted: the two zeros asked again after a request that formats hundreds of other numbers, in the other order
+            hist = ["/d.ascii?z0", "/d.ascii?z1", "/d.das", "/d.ascii?big", "/d.ascii?z1", "/d.ascii?z0", "/d.das", "/d.ascii?zi"]
         stats["histories"] += 1
         for pos, u in enumerate(hist):
             got = fetch(app, u)
@@ -299,7 +335,11 @@ def main():
     # the same wire layout (scratch buffers shared between requests would be hit here)
     seq_pairs = [("/d.dods?q.a", "/d.dods?loc.t"), ("/d.dods?lz.k", "/d.dods?q.a"), ("/d.dods?q.b", "/d.dods?lz.v"),
                  ("/d.dods?q", "/d.dods?q&q.a>1"), ("/d.ascii?q.a", "/d.dods?loc.t")]
-    for urls in (seq_pairs if T != "quick" else rng.sample(seq_pairs, 2)):
+    # ... and for pairs of requests that read the same arrays (a response that touches the served array while it writes it out,
+    # however briefly, is seen by the other one)
+    arr_pairs = [("/d.dods?x", "/d.ascii?x"), ("/d.dods?f,g", "/d.dods?g.a[1:2],g.y"), ("/d.dods?x,g", "/d.dods?x[0:1][1:2][0:2:3]"),
+                 ("/d.dods?st,z1", "/d.dods?st.m[1:2],s"), ("/d.ascii?f", "/d.dods?f")]
+    for urls in ((seq_pairs + arr_pairs) if T != "quick" else rng.sample(seq_pairs, 2) + arr_pairs[:2]):
         urls = list(urls)
         ds = build_dataset()
         app = ServerSideFunctions(BaseHandler(ds))
@@ -433,6 +473,19 @@ def main():
     r.finish()
 
 
+def fetch_isolated(u):
+    """--fetch <request>: the answer of a fresh application in this (fresh) process, one JSON line"""
+    import json
+    use_repo()
+    from pydap.handlers.lib import BaseHandler
+    from pydap.wsgi.ssf import ServerSideFunctions
+    got = fetch(ServerSideFunctions(BaseHandler(build_dataset())), u)
+    print(json.dumps([str(got[0]), repr(got[1]), got[2].hex() if isinstance(got[2], bytes) else str(got[2])]))
+
+
 if __name__ == "__main__":
+    if len(sys.argv) == 3 and sys.argv[1] == "--fetch":
+        fetch_isolated(sys.argv[2])
+        sys.exit(0)
     import common
     common.run(main, PID)
